@@ -24,10 +24,10 @@ CORE_TRUSTED = [
 
 
 class CoreCheck(LineCheck):
+    coq_extra = ["theories/Core/CoreRel.vo", "theories/Core/CoreCodes.vo"]
     codes = []             # list of (lo, hi) failure-code ranges of the Coq monitor that belong to this property
     extra_codes = []
     profiles = ["mixed"]
-    coq_extra = []
     n_quick = 600
     n_thorough = 12000
     backends = core_gen.BACKENDS
@@ -206,7 +206,6 @@ class C01(CoreCheck):
     pid = "C01"
     codes = [(100, 200), (1101, 1103), (1104, 1105), (1801, 1802)]
     profiles = ["fd", "mixed", "event", "task", "timer"]
-    coq_extra = ["theories/Core/CoreRel.vo"]
     rule = ("seeded scenarios over all object kinds with several objects due in one iteration and handler scripts that unregister/free "
             "(struct reuse) self and other objects; non-trivial = some unregister or free action is executed inside a callback of an "
             "iteration with >= 2 callbacks; distinct = distinct scenario text")
